@@ -563,6 +563,18 @@ def extract_optimizer_copies(repo):
             isinstance(first.value.args[0], ast.Name) and first.value.args[0].id == 'mutations')
 
 
+def extract_diff_evolutions_args(repo):
+    """the two arguments of the `Diff(...)` that Evolver.diff_evolutions() returns, as source text"""
+    tree = ast.parse(_src(repo, 'django_evolution/evolve/evolver.py'))
+    cls = _find_class(tree, 'Evolver')
+    fn = _find_func(cls, 'diff_evolutions')
+    for n in ast.walk(fn):
+        if isinstance(n, ast.Return) and isinstance(n.value, ast.Call) and isinstance(n.value.func, ast.Name) and \
+                n.value.func.id == 'Diff' and len(n.value.args) == 2 and not n.value.keywords:
+            return ast.unparse(n.value.args[0]), ast.unparse(n.value.args[1])
+    raise ExtractError('Evolver.diff_evolutions does not end in `return Diff(a, b)`')
+
+
 def regenerate(repo, outdir):
     os.makedirs(outdir, exist_ok=True)
     flags = {}
@@ -592,6 +604,11 @@ def regenerate(repo, outdir):
     parts.append('/-- `QSerialization.child_separators` (django_evolution/serialization.py) -/')
     parts.append('def qSeparators : List (String × String) := ' + lean_list(
         '(%s, %s)' % (lean_str(k), lean_str(v)) for k, v in seps))
+    da = extract_diff_evolutions_args(repo)
+    flags['diff_evolutions_args'] = list(da)
+    parts.append('')
+    parts.append('/-- arguments of the `Diff(...)` returned by `Evolver.diff_evolutions` -/')
+    parts.append('def diffEvolutionsArgs : String × String := (%s, %s)' % (lean_str(da[0]), lean_str(da[1])))
     oc = extract_optimizer_copies(repo)
     flags['optimizer_copies'] = oc
     parts.append('')
